@@ -322,11 +322,20 @@ func cmdCheck(args []string) int {
 			path := filepath.Join(replayDir, fmt.Sprintf("%s-%d.json", j.Func, n))
 			writeReplayFile(path, id, j, p.f)
 			confirmed, why := true, "not replayed natively: "+j.Note
+			schedDep := false
 			if !j.NoReplay {
+				if j.Sched && p.f.Kind == "assert" {
+					rp.stress = 3000
+				}
 				confirmed, why = rp.replay(path, p.f)
+				rp.stress = 0
 				rep.Replayed++
 				if confirmed {
 					rep.Agreed++
+				} else if j.Sched && (p.f.Kind == "assert" || p.f.Kind == "deadlock") && why != "tape diverged" && !strings.HasPrefix(why, "native build failed") {
+					// The counterexample needs the explored interleaving, which a native run cannot be
+					// forced into; it is reported with its schedule trace, marked as not reproduced.
+					confirmed, schedDep = true, true
 				}
 			}
 			switch {
@@ -345,6 +354,9 @@ func cmdCheck(args []string) int {
 				o.violations++
 				say("VIOLATION property=%s replay=%s", id, path)
 				say("  harness=%s assertion=%s %s\n  input: %s", j.Func, p.f.ID, p.f.Msg, tapeString(p.f.Tape, 400))
+				if schedDep {
+					say("  (schedule-dependent: 3000 native runs with these inputs did not hit the interleaving; the explored schedule is in the replay file)")
+				}
 			}
 		}
 		if !j.NoReplay && len(res.Samples) > 0 {
@@ -470,6 +482,7 @@ type replayer struct {
 	dir     string
 	bin     string
 	built   bool
+	stress  int
 	buildErr string
 	work    string
 }
@@ -499,7 +512,9 @@ func (r *replayer) build() bool {
 		r.buildErr = err.Error()
 		return false
 	}
-	test := fmt.Sprintf("package %s\n\nimport (\n\t\"testing\"\n\n\t\"github.com/netflix/rend/zz_verif/rt\"\n)\n\nfunc TestZZReplay(t *testing.T) {\n\trt.Start()\n\tdefer rt.Finish()\n%s\trt.Run(%s)\n}\n", r.pkgName, setupCall(r.job.Setup), r.job.Func)
+	// schedule-dependent counterexamples are replayed as a stress loop (VERIF_STRESS iterations):
+	// the inputs are the solver's, the interleaving is left to the Go scheduler
+	test := fmt.Sprintf("package %s\n\nimport (\n\t\"os\"\n\t\"strconv\"\n\t\"testing\"\n\n\t\"github.com/netflix/rend/zz_verif/rt\"\n)\n\nfunc TestZZReplay(t *testing.T) {\n\tn := 1\n\tif s := os.Getenv(\"VERIF_STRESS\"); s != \"\" {\n\t\tn, _ = strconv.Atoi(s)\n\t}\n\tfor i := 0; i < n; i++ {\n\t\trt.Start()\n%s\t\trt.Run(%s)\n\t\tif len(rt.Failed) > 0 {\n\t\t\tbreak\n\t\t}\n\t}\n\trt.Finish()\n}\n", r.pkgName, setupCall(r.job.Setup), r.job.Func)
 	testPath := filepath.Join(work, "zz_replay_test.go")
 	os.WriteFile(testPath, []byte(test), 0644)
 	ov[filepath.Join(repoDir(), strings.TrimPrefix(r.job.Pkg, "./"), "zz_replay_test.go")] = testPath
@@ -545,6 +560,9 @@ func (r *replayer) run(tapePath string) (string, bool) {
 		cmd.Dir = repoDir()
 	}
 	cmd.Env = append(goEnv(), "VERIF_TAPE="+tapePath, "VERIF_PARAMS="+string(params))
+	if r.stress > 0 {
+		cmd.Env = append(cmd.Env, "VERIF_STRESS="+strconv.Itoa(r.stress))
+	}
 	done := make(chan struct{})
 	var out []byte
 	go func() { out, _ = cmd.CombinedOutput(); close(done) }()
